@@ -11,9 +11,11 @@
    and the whole-program claim is decided on every run by execution: the
    reference interpreter is evaluated INSIDE Coq on each generated program and
    must print what the implementation prints and fail where it fails. *)
-From Coq Require Import List NArith ZArith Bool.
+From Coq Require Import List NArith ZArith Bool Lia Sorted.
 From Abasic Require Import Model.Bytes Model.Num Model.Token Model.Data Model.Lexer Gen.Tables
-     Model.State Model.Eval Model.Interp Ref.RefSem Proofs.ExprSem Proofs.RefProofs Proofs.StmtSim.
+     Model.State Model.Eval Model.Interp Ref.RefSem Proofs.ExprSem Proofs.RefProofs Proofs.StmtSim
+     Proofs.ProgSim.
+From Abasic Require Proofs.StoreProofs.
 Import ListNotations.
 Local Open Scope nat_scope.
 
@@ -157,6 +159,114 @@ Proof.
     + do 3 (apply R_incl; [repeat constructor|]). constructor.
 Qed.
 
+(* (4) WHOLE PROGRAMS of a fragment: scalar assignment, PRINT, GOTO,
+   IF c THEN <line>, END over the expression fragment — a language of counter
+   machines (programs loop, branch, need not terminate).  For ANY reference
+   program [p] of the fragment and ANY legal token spelling of it stored in the
+   model ([Inv]: each line is its statements' spellings joined by colons), from
+   related configurations ([Sim]: same place, same variable store, the model
+   has printed the reference's output records), after EVERY number [k] of
+   reference steps:
+     - reference still running at pc' -> the model, after finitely many host
+       calls each made with enough fuel, is in a state related to it again;
+     - reference finished (END / end of program) -> the model is idle and has
+       printed exactly the reference's output;
+     - reference failed -> the model's call fails with the same error kind on
+       the same line, having printed the same output;
+     - the reference never runs out of fuel.
+   [reach P s]: every sufficiently fuelled run of host calls from [s] passes
+   through a state satisfying [P] (definitions in Proofs/ProgSim.v).  The model
+   executes the colon between statements as a call of its own and advances to
+   the next line inside the call: the simulation absorbs both. *)
+Theorem C03_fragment_simulation : forall F p o0 k pc st s,
+  Sim F p o0 pc st s -> after_step F p o0 (rrun F p k pc st) s.
+Proof. exact fragment_simulation. Qed.
+
+Check C03_fragment_simulation : forall F p o0 k pc st s,
+  Sim F p o0 pc st s ->
+  match rrun F p k pc st with
+  | Next pc' st' => reach (Sim F p o0 pc' st') s
+  | Done st' => reach (fun s' => state s' = Idle /\ outputs s' = o0 ++ map OPrint (r_out st')) s
+  | Fail er line st' =>
+      reach (fun s1 => exists f0, forall fuel, f0 <= fuel -> exists ie l s',
+               continue_evaluating fuel s1 = (Err ie (Some l), s') /\ rerr_of2 ie = er /\ loc_line l = Some line
+               /\ state s' = Idle /\ outputs s' = o0 ++ map OPrint (r_out st')) s
+  | NoFuel => False
+  end.
+
+(* non-vacuity of (4): the program  10 I = I + 1 / 20 PRINT I; / 30 IF I < 3
+   THEN 10 / 40 END  typed into a fresh interpreter and started: the tokens are
+   the tokenizer's, the configuration is related to the reference's initial
+   one, and therefore (by the theorem) every sufficiently fuelled run of host
+   calls ends idle having printed 1, 2, 3 — what the reference prints *)
+Definition ex_lines := [HLine (bs "10 I = I + 1"); HLine (bs "20 PRINT I;"); HLine (bs "30 IF I < 3 THEN 10"); HLine (bs "40 END")].
+Definition ex_s : interp := set_state Running (snd (run_from_first_numbered_line (StoreProofs.run_state 50 init_interp ex_lines))).
+Definition n1 : f64 := SpecFloat.S754_finite false 4503599627370496 (-52).
+Definition n3 : f64 := SpecFloat.S754_finite false 6755399441055744 (-51).
+Definition n10 : f64 := SpecFloat.S754_finite false 5629499534213120 (-49).
+Definition vI : bytes := [73%N].
+Definition ex_p : rprogram :=
+  [(10%N, [SLet vI [] (XBin RAdd (XVar vI) (XNum n1))]);
+   (20%N, [SPrint [PExpr (XVar vI); PSemi]]);
+   (30%N, [SIf (XBin (RCmp CLt) (XVar vI) (XNum n3)) (ALine 10%N) None]);
+   (40%N, [SEnd])].
+
+Lemma R0_var v : Renders 0 (EVar v) [TSymbol v].
+Proof. do 7 (apply R_incl; [lia|]). constructor. Qed.
+
+Example ex_sim : Sim 8 ex_p [] (0, 0) (r_init 0) ex_s.
+Proof.
+  apply (Sim_at 8 ex_p [] 0 0 (r_init 0) ex_s false).
+  - split; try reflexivity.
+    + repeat constructor.
+    + intros li n stmts H.
+      destruct li as [|[|[|[|li]]]]; cbn in H; try (destruct li; discriminate); inversion H; subst; eexists; (split; [vm_compute; reflexivity|]); apply LR_last.
+      * apply (SR_let 8 [] vI (XBin RAdd (XVar vI) (XNum n1)) (EBin (BAddSub OAdd) (EVar vI) (ENum n1)) [TSymbol vI; TPlus; TNumber n1]); try reflexivity; try (cbn; lia).
+        do 3 (apply R_incl; [lia|]).
+        apply (R_bin (BAddSub OAdd) (EVar vI) (ENum n1) [TSymbol vI] [TNumber n1]).
+        -- do 4 (apply R_incl; [cbn; lia|]). constructor.
+        -- do 3 (apply R_incl; [cbn; lia|]). constructor.
+      * apply (SR_print 8 [] [PExpr (XVar vI); PSemi] [MExpr (EVar vI); MSemi] [TSymbol vI; TSemicolon]); try reflexivity; try (cbn; lia).
+        apply (IR_expr [] (EVar vI) [TSymbol vI] [MSemi] [TSemicolon]); [apply R0_var | reflexivity|].
+        apply IR_semi. apply IR_nil. reflexivity.
+      * apply (SR_if 8 [] (XBin (RCmp CLt) (XVar vI) (XNum n3)) (EBin (BCmp OLessThan) (EVar vI) (ENum n3)) [TSymbol vI; TLessThan; TNumber n3] 10%N n10); try reflexivity; try (cbn; lia).
+        do 2 (apply R_incl; [lia|]).
+        apply (R_bin (BCmp OLessThan) (EVar vI) (ENum n3) [TSymbol vI] [TNumber n3]).
+        -- do 5 (apply R_incl; [cbn; lia|]). constructor.
+        -- do 4 (apply R_incl; [cbn; lia|]). constructor.
+      * apply SR_end.
+    + intros n H.
+      assert (E : st_toks ex_s = [(40%N, [TEnd]); (30%N, [TIf; TSymbol vI; TLessThan; TNumber n3; TThen; TNumber n10]);
+                                 (20%N, [TPrint; TSymbol vI; TSemicolon]);
+                                 (10%N, [TSymbol vI; TEquals; TSymbol vI; TPlus; TNumber n1])]) by (vm_compute; reflexivity).
+      rewrite E in H. cbn [toks_get] in H. cbn [map fst ex_p In].
+      destruct (N.eqb_spec 40 n); [subst; tauto|]. destruct (N.eqb_spec 30 n); [subst; tauto|].
+      destruct (N.eqb_spec 20 n); [subst; tauto|]. destruct (N.eqb_spec 10 n); [subst; tauto|].
+      exfalso. apply H. reflexivity.
+  - reflexivity.
+  - split; intros name; reflexivity.
+  - reflexivity.
+  - exists 10%N, [SLet vI [] (XBin RAdd (XVar vI) (XNum n1))], [TSymbol vI; TEquals; TSymbol vI; TPlus; TNumber n1], [TSymbol vI; TEquals; TSymbol vI; TPlus; TNumber n1].
+    repeat split; try reflexivity.
+    apply LR_last.
+    apply (SR_let 8 [] vI (XBin RAdd (XVar vI) (XNum n1)) (EBin (BAddSub OAdd) (EVar vI) (ENum n1)) [TSymbol vI; TPlus; TNumber n1]); try reflexivity; try (cbn; lia).
+    do 3 (apply R_incl; [lia|]).
+    apply (R_bin (BAddSub OAdd) (EVar vI) (ENum n1) [TSymbol vI] [TNumber n1]).
+    + do 4 (apply R_incl; [cbn; lia|]). constructor.
+    + do 3 (apply R_incl; [cbn; lia|]). constructor.
+Qed.
+Example ex_runs : exists st', rrun 8 ex_p 40 (0,0) (r_init 0) = Done st' /\ r_out st' = [bs "1"; bs "2"; bs "3"]
+  /\ reach (fun s => state s = Idle /\ outputs s = map OPrint [bs "1"; bs "2"; bs "3"]) ex_s.
+Proof.
+  pose proof (fragment_simulation 8 ex_p [] 40 (0,0) (r_init 0) ex_s ex_sim) as H.
+  destruct (rrun 8 ex_p 40 (0,0) (r_init 0)) as [pc st'|st'|er l st'|] eqn:E; try (vm_compute in E; discriminate).
+  exists st'. split; [reflexivity|].
+  assert (Ho : r_out st' = [bs "1"; bs "2"; bs "3"]).
+  { vm_compute in E. inversion E. reflexivity. }
+  split; [exact Ho|]. unfold after_step in H.
+  eapply reach_bind; [exact H|]. intros s' [A B]. apply reach_now. split; [exact A|]. rewrite B, Ho. reflexivity.
+Qed.
+
 (* non-vacuity: the manual's nested-loop example (NEXT I forgets the J loop)
    and a GOSUB in a colon line, run by the reference interpreter *)
 Definition nx := XNum (f64_of_Z 1).
@@ -179,3 +289,5 @@ Print Assumptions C03_expr_model_is_reference.
 Print Assumptions C03_let_statement_simulates.
 Print Assumptions C03_same_store_reads.
 Print Assumptions C03_print_statement_simulates.
+Print Assumptions C03_fragment_simulation.
+Print Assumptions ex_runs.
